@@ -103,8 +103,12 @@ def classify_mutation(ctx: Ctx, m, fresh_owners) -> str:
     """'' if allowed before the evaluation, else a description."""
     if m.init_self:
         return ''
-    if m.func.cls is not None and m.func.cls.name == 'Evolvent':
-        return ''       # the evolvent's scratch array: re-established by every query (decided under C17)
+    evc = ctx.ix.find_cls('Evolvent')
+    if (m.func.cls is not None and m.func.cls.name == 'Evolvent') or \
+            (evc is not None and m.func.module is evc.module):
+        # the evolvent's scratch array and call-local work arrays (also through helper functions of its module):
+        # re-established by every query (decided under C17)
+        return ''
     if m.kind in ('attr', 'aug') and isinstance(m.field, str) and m.field in ALLOWED_PRE_FIELDS:
         return ''
     bases = [o for o in m.bases if o.kind not in ('cls', 'func', 'module', 'extmod', 'builtin', 'bm', 'extmeth')]
